@@ -66,7 +66,11 @@ def valid_spec(draw, sm, want_mc=None, want_mixed=None, explicit=False, req_form
         mc = {'port': port, 'claim': claim['name'], 'grant': [grant], 'release': release['name']}
     psem = 'MTS' if use_mc else draw(st.sampled_from(['STS', 'MTS']))
     psts, pmts = spell_uniform(draw, psem, prov, explicit)
-    if want_mixed and len(req) >= 2:
+    if isinstance(want_mixed, str) and len(req) >= 2:
+        # an explicit pattern, applied cyclically in declaration order (e.g. 'MSM')
+        assign = {p: ('STS' if want_mixed[i % len(want_mixed)] == 'S' else 'MTS')
+                  for i, p in enumerate(req)}
+    elif want_mixed and len(req) >= 2:
         off = draw(st.integers(0, 2))
         if off == 2 and len(req) >= 3:  # one odd port out, somewhere
             k = draw(st.integers(0, len(req) - 1))
